@@ -38,6 +38,9 @@ int main(void) {
         printf("{\"id\":%lu,", id);
         if (op == 'C') { size_t dn = tok(), doff = tok(), len = tok(), sn = tok(), soff = tok(); uint8_t* d = rd(dn); uint8_t* s = rd(sn);
             nunavutCopyBits(d, doff, len, s, soff); printf("\"out\":"); hex(d, dn); free(d); free(s); }
+        else if (op == 'c') { size_t dn = tok(), doff = tok(), len = tok(), sn = tok(), soff = tok(); uint8_t* s = (uint8_t*) malloc(sn ? sn : 1); uint8_t* d = rd(dn);
+            for (size_t i = 0; i < sn; i++) s[i] = (uint8_t) tok();   /* the source buffer was allocated FIRST: other address order */
+            nunavutCopyBits(d, doff, len, s, soff); printf("\"out\":"); hex(d, dn); free(d); free(s); }
         else if (op == 'G') { size_t on = tok(), phys = tok(), size = tok(), off = tok(), len = tok(); uint8_t* o = rd(on); uint8_t* b = rd(phys);
             VF_RESET(); nunavutGetBits(o, b, size, off, len); printf("\"out\":"); hex(o, on); VF_REPORT(); free(o); free(b); }
         else if (op == 'U' || op == 'I') { size_t phys = tok(), size = tok(), off = tok(), len = tok(); uint64_t v = tok(); uint8_t* b = rd(phys);
@@ -84,6 +87,9 @@ int main() {
         cur = line; char op = *cur++; unsigned long id = static_cast<unsigned long>(tok());
         std::printf("{\"id\":%lu,", id);
         if (op == 'C') { std::size_t dn = tok(), doff = tok(), len = tok(), sn = tok(), soff = tok(); std::uint8_t* d = rd(dn); std::uint8_t* s = rd(sn);
+            const_bitspan(s, sn, soff).copyTo(bitspan(d, dn, doff), len); std::printf("\"out\":"); hex(d, dn); std::free(d); std::free(s); }
+        else if (op == 'c') { std::size_t dn = tok(), doff = tok(), len = tok(), sn = tok(), soff = tok(); std::uint8_t* s = static_cast<std::uint8_t*>(std::malloc(sn ? sn : 1)); std::uint8_t* d = rd(dn);
+            for (std::size_t i = 0; i < sn; i++) s[i] = static_cast<std::uint8_t>(tok());
             const_bitspan(s, sn, soff).copyTo(bitspan(d, dn, doff), len); std::printf("\"out\":"); hex(d, dn); std::free(d); std::free(s); }
         else if (op == 'G') { std::size_t on = tok(), phys = tok(), size = tok(), off = tok(), len = tok(); std::uint8_t* o = rd(on); std::uint8_t* b = rd(phys);
             const_bitspan(b, size, off).getBits(bytespan(o, on), len); std::printf("\"out\":"); hex(o, on); std::free(o); std::free(b); }
@@ -152,6 +158,8 @@ class NativePrims:
             cmd[1:1] = ["-fsanitize=address,undefined", "-fno-sanitize-recover=all"]
         if self.watching:
             cmd[1:1] = ["-DVF_WATCH_ON"]
+        if options.get("enable_serialization_asserts"):
+            cmd[1:1] = ["-DNUNAVUT_ASSERT=assert", "-include", "assert.h" if lang == "c" else "cassert"]
         p = subprocess.run(cmd, stdout=subprocess.PIPE, stderr=subprocess.STDOUT, text=True)
         if p.returncode != 0:
             raise MachineryFailure("primitive driver (%s) does not compile:\n%s" % (tag, p.stdout[-3000:]))
